@@ -138,9 +138,9 @@ example : (loopM GenCfg.fixed exScriptNoKeys exFt exNode .ptr exVal [seg "PM"]).
 
 /-- `negative-index`: `L.-1` reaches `s[-1]`. -/
 theorem repo_panics_negative_index :
-    (getM GenCfg.repo exNode .ptr exVal [seg "L", seg "-1" (some (-1))]).isPanic = true ∧
-    cmpM GenCfg.repo exNode .ptr exVal [seg "L", seg "-1" (some (-1))] 1 (seg "3" (some 3)) = .panic ∧
-    (setM GenCfg.repo exNode .ptr exVal [seg "L", seg "-1" (some (-1))] (srcInt 5) true).isPanic = true := by
+    (getM GenCfg.original exNode .ptr exVal [seg "L", seg "-1" (some (-1))]).isPanic = true ∧
+    cmpM GenCfg.original exNode .ptr exVal [seg "L", seg "-1" (some (-1))] 1 (seg "3" (some 3)) = .panic ∧
+    (setM GenCfg.original exNode .ptr exVal [seg "L", seg "-1" (some (-1))] (srcInt 5) true).isPanic = true := by
   decide
 
 /-- `nil-root-panics`: a typed-nil root is dereferenced (GetTo on the empty path, Reset, Copy, Length). -/
